@@ -29,6 +29,9 @@ THEOREMS = [
     "Aio.C15.response_consistent",
     "Aio.C15.head_has_no_body",
     "Aio.C15.conditional_precedence",
+    "Aio.C15.fstat_always_adopted",
+    "Aio.C15.race_response_consistent",
+    "Aio.C15.stale_stat_mixes_versions",
     "Aio.C15.walk_resolved",
     "Aio.C15.stat_of_resolved",
     "Aio.C15.fixpoint_check_present",
@@ -46,6 +49,9 @@ RULE = ("(1) FileResponse over real files of sizes 0..6 (+ one 70-byte file) thr
         "from structured pools (If-Match / If-None-Match: *, current strong, current weak, other, list, garbage; dates "
         "mtime-1/mtime/mtime+1/garbage with mtime at .0 and .5 s; If-Range: dates and entity tags), exhaustive product in the "
         "thorough tier. BaseRequest.http_range additionally on a string grammar incl. trailing newline. "
+        "(1b) the same FileResponse while the file changes between its stat() and its open() (hook on pathlib.Path.open): in-place "
+        "rewrite to larger / smaller / empty / same size, atomic rename-replace to larger / smaller / same size, deletion x sizes "
+        "{0,1,4,6,10} x 13 range specs x GET/HEAD; old and new contents use disjoint byte alphabets so the served version is identifiable. "
         "(2) StaticResource over a real tree with files inside, outside and linked across the root (file/dir/absolute links, "
         "chains, loops, dangling, out-and-back, FIFO, pre-compressed siblings incl. a symlinked one, a sibling directory whose "
         "name extends the root's): targets from a traversal grammar (dot segments, %2e, %2f, %5c, %25-double encoding, %00, "
@@ -59,6 +65,8 @@ TRUSTED_BASE = [
     "the OS: `lstat` results of the temporary tree are handed to the model as a table; `posixpath.realpath`/`Path.resolve` are modelled "
     "(`walk`) and compared on every request, pathlib's joinpath/relative_to/with_suffix are modelled by list operations",
     "st_mtime comparisons are modelled in exact nanosecond arithmetic (generated mtimes are multiples of 0.5 s, exactly representable)",
+    "the stat->open window is forced deterministically by hooking pathlib.Path.open in the harness; changes *after* open() (while the body "
+    "is being sent) are not modelled",
     "only the concatenation of body writes is compared (chunk grouping of `_sendfile_fallback` is proved equal to the slice in Lean); "
     "loop.sendfile is disabled (AIOHTTP_NOSENDFILE=1)",
     "reference reading of RFC 9110 §14.1.2 / §13.2.2 in AioModel/C15.lean (`parseSpec`, `rfcSlice`, `rfcPrecondition`), cross-checked "
@@ -85,6 +93,9 @@ def generate(repo):
         raise RuntimeError("range pattern literal not found in BaseRequest.http_range")
     pat = m.group(1)
     ascii_flag = bool(re.search(r"re\.findall\(pattern,\s*rng,\s*re\.ASCII\)", src))
+    msrc = inspect.getsource(wf.FileResponse._make_response)
+    # after open(): `st = os.stat(fobj.fileno())`, unconditionally (only wrapped in `with suppress(OSError)`)
+    fstat_flag = bool(re.search(r'fobj = file_path\.open\("rb"\)\n\s*with suppress\(OSError\):\n(?:\s*#[^\n]*\n)*\s*st = os\.stat\(fobj\.fileno\(\)\)\n\s*return ', msrc))
     rsrc = inspect.getsource(wu.StaticResource._resolve_path_to_response)
     # the F21 repair: in the non-follow branch, resolve() must be a fixpoint before relative_to()
     m2 = re.search(r"else:\s*\n\s*file_path = unresolved_path\.resolve\(\)\n(.*?)file_path\.relative_to\(self\._directory\)", rsrc, re.S)
@@ -120,6 +131,8 @@ def generate(repo):
         f"def circularSymlinkIs404 : Bool := {'true' if wu.CIRCULAR_SYMLINK_ERROR else 'false'}\n"
         "/-- `_resolve_path_to_response` (non-follow branch) refuses a path that `resolve()` left unresolved -/\n"
         f"def resolveFixpointCheck : Bool := {'true' if fix_flag else 'false'}\n"
+        "/-- `_make_response` replaces the path stat by the fstat of the opened descriptor, unconditionally -/\n"
+        f"def fstatAlwaysAdopted : Bool := {'true' if fstat_flag else 'false'}\n"
         "end Aio.Gen.C15\n")
     return {"AioModel/Generated/C15.lean": text}
 
@@ -188,7 +201,9 @@ def parse_response(out, head=False):
     """-> (status, {lower-name: value}, body) ; body de-chunked"""
     i = out.find(b"\r\n\r\n")
     if i < 0:
-        raise MachineryError(f"malformed response {out[:100]!r}")
+        # the server closed the connection without (a complete) response head, e.g. because an exception
+        # escaped while the response was being prepared: an outcome to be judged, not a harness failure
+        return 0, {"x-harness": "no-response", "x-raw": out[:60].decode("latin-1")}, b""
     lines = out[:i].decode("latin-1").split("\r\n")
     status = int(lines[0].split(" ")[1])
     hdrs = {}
@@ -204,8 +219,15 @@ def parse_response(out, head=False):
         while True:
             k = body.find(b"\r\n", j)
             if k < 0:
-                raise MachineryError(f"bad chunked body {body[:80]!r}")
-            n = int(body[j:k].split(b";")[0], 16); j = k + 2
+                # truncated chunked body (connection dropped mid-body): keep what arrived, flag it
+                hdrs["x-harness"] = "truncated-chunked"
+                break
+            try:
+                n = int(body[j:k].split(b";")[0], 16)
+            except ValueError:
+                hdrs["x-harness"] = "bad-chunk-size"
+                break
+            j = k + 2
             if n == 0:
                 break
             dec += body[j:j + n]; j += n + 2
@@ -623,6 +645,143 @@ def check_files(ctx):
         bed.close()
 
 
+# ------------------------------------------------------------------------------------ part 1b: the stat -> open window
+MUTS = ["inplace-larger", "inplace-smaller", "inplace-empty", "inplace-same-size", "replace-larger", "replace-smaller",
+        "replace-same-size", "delete"]
+T1 = T0 + 10  # mtime (s) of the version written inside the window
+
+
+def new_version(mut, old):
+    """content found by open() after the mutation; None = file deleted.  Lower-case letters: disjoint from the old bytes."""
+    n = len(old)
+    if mut == "delete":
+        return None
+    m = {"larger": n + 15, "smaller": max(n - 3, 0) if n > 3 else max(n - 1, 0), "empty": 0, "same-size": n}[mut.split("-", 1)[1]]
+    return bytes(0x61 + (i % 26) for i in range(m))
+
+
+class _Collect:
+    def __init__(self): self.v = []
+    def violation(self, sig, case, detail): self.v.append((sig, detail))
+
+
+def oracle_race(ctx, case, old, new, resp):
+    """the file changed between FileResponse's stat() and its open(): status, Content-Range, Content-Length and body must
+    all describe ONE version of the file - the one whose bytes are served (a vanished file: 404)."""
+    status, hdrs, body = resp
+    if status in (403, 404) and not body:
+        if new is not None:
+            ctx.violation("C15/race/existing-file-answered-%d" % status, case, "the file exists before and after the window")
+        return
+    sem = {"im": None, "um": None, "inm": None, "ms": None, "ir": None}
+    problems = []
+    for name, content in (("the version open() found", new), ("the version stat() saw", old)):
+        if content is None:
+            continue
+        col = _Collect()
+        oracle_file(col, case, content, sem, resp)
+        v = [x for x in col.v if not x[0].endswith(("suffix-zero-served-206", "overlong-number-416"))]
+        if not v:
+            return
+        problems.append(f"vs {name} ({len(content)} bytes): {v[0][0]}")
+    ctx.violation("C15/race/response-mixes-file-versions", case,
+                  "headers and body are not consistent with any single version of the file: " + "; ".join(problems) +
+                  f" [status={status} content-range={hdrs.get('content-range')!r} content-length={hdrs.get('content-length')!r} body={body[:20]!r}]")
+
+
+async def run_race(bed, case):
+    """one request during which the file is changed between the path stat() and the open() (hook on pathlib.Path.open)"""
+    import pathlib
+    p, old, ns = bed.files[(case["size"], 0)]
+    new = new_version(case["mut"], old)
+    orig_open = pathlib.Path.open
+    fired = []
+
+    def hooked(self, *a, **kw):
+        if not fired and str(self) == p:
+            fired.append(1)
+            if new is None:
+                os.unlink(p)
+            elif case["mut"].startswith("inplace"):
+                with open(p, "r+b") as f:       # same inode
+                    f.truncate(0); f.write(new)
+                os.utime(p, ns=(T1 * 10**9, T1 * 10**9))
+            else:                                # atomic rename-replace: new inode
+                tmp = p + ".new"
+                with open(tmp, "wb") as f:
+                    f.write(new)
+                os.utime(tmp, ns=(T1 * 10**9, T1 * 10**9))
+                os.replace(tmp, p)
+        return orig_open(self, *a, **kw)
+    pathlib.Path.open = hooked
+    try:
+        raw = build_request(case["method"], f"/f/{case['size']}/0/{case['cs']}", case["headers"])
+        out = await ask(bed.runner, raw)
+    finally:
+        pathlib.Path.open = orig_open
+        with open(p + ".restore", "wb") as f:
+            f.write(old)
+        os.utime(p + ".restore", ns=(ns, ns))
+        os.replace(p + ".restore", p)
+    return parse_response(out, head=case["method"] == "HEAD"), bool(fired), new
+
+
+def gen_race_cases(ctx):
+    rng = ctx.rng
+    cases = []
+    for size in (10, 6, 4, 1, 0):
+        ranges = [None, "bytes=-5", "bytes=-1", "bytes=0-0", "bytes=3-8", "bytes=2-", "bytes=0-", f"bytes={size}-", f"bytes={size + 3}-{size + 20}",
+                  f"bytes=0-{size + 20}", "bytes=-100", f"bytes={max(size - 1, 0)}-", "bytes=x"]
+        for mut in MUTS:
+            for i, rh in enumerate(ranges):
+                for method in (("GET", "HEAD") if (not ctx.quick or i % 4 == 0) else ("GET",)):
+                    cases.append({"kind": "race", "size": size, "mut": mut, "cs": rng.choice(FileBed.CHUNKS), "method": method, "range": rh,
+                                  "headers": [] if rh is None else [["Range", rh]]})
+    # a few with If-Range (evaluated against the fstat'ed mtime) for the correspondence
+    for mut in MUTS:
+        for ir in ("same", "after"):
+            cases.append({"kind": "race", "size": 6, "mut": mut, "cs": 3, "method": "GET", "range": "bytes=1-2", "ir": ir,
+                          "headers": [["Range", "bytes=1-2"], ["If-Range", httpdate(T0 if ir == "same" else T1 + 1)]]})
+    return cases
+
+
+def check_race(ctx):
+    cases = gen_race_cases(ctx)
+    bed = FileBed([0, 1, 4, 6, 10])
+    try:
+        async def main():
+            await bed.start()
+            try:
+                return [await run_race(bed, c) for c in cases]
+            finally:
+                await bed.stop()
+        res, excs, quiescent = vloop.run(main)
+        if res is None:
+            raise MachineryError("race bed did not finish")
+        lines = []
+        for c, (resp, fired, new) in zip(cases, res):
+            p, old, ns = bed.files[(c["size"], 0)]
+            req = mock_request([tuple(h) for h in c["headers"]])
+            rngv = req.headers.get("Range")
+            at_open = f"{ns}:{hx(old)}" if not fired else ("none" if new is None else f"{T1 * 10**9}:{hx(new)}")
+            lines.append("race %d %s %s %d %d %s %s %s %s %s %s %s" % (
+                c["cs"], b01(c["method"] == "HEAD"), st(etag_of(p)), ns, len(old), tags_col(req.if_match), tags_col(req.if_none_match),
+                ts_col(req.if_unmodified_since), ts_col(req.if_modified_since), ts_col(req.if_range),
+                "none" if rngv is None else st(rngv), at_open))
+        outs = ctx.model(lines)
+        for i, (c, (resp, fired, new)) in enumerate(zip(cases, res)):
+            p, old, ns = bed.files[(c["size"], 0)]
+            canon = canon_file_response(*resp)
+            ctx.case(("race", c), nontrivial=True, sample={"request": c, "response": canon[:60]} if i % 211 == 3 else None)
+            ctx.hit("race:" + c["mut"], "race:status-%d" % resp[0], "race:hook-fired" if fired else "race:hook-not-fired")
+            if "ir" not in c:
+                oracle_race(ctx, c, old, new if fired else old, resp)
+            if outs is not None:
+                ctx.compare(c, canon, outs[i], "FileResponse with the file changing between stat() and open() vs Aio.C15.fileResponseRace")
+    finally:
+        bed.close()
+
+
 def dec(n):
     """str(n) for ints beyond the interpreter's int->str digit limit"""
     if n is None:
@@ -705,7 +864,7 @@ class Tree:
             "root/link_dir_in": "sub", "root/out_in": "../outside/back_in", "outside/back_in": "../root/sub/b.txt",
             "root/sub/b.txt.br": "../../outside/secret.txt", "root/a.txt.br": "sub/b.txt", "root/up_out": "../rootx",
             "root/slashes": "sub//deep/./c.txt", "root/dotdot_link": "sub/deep/../../../outside/dir",
-            "outside/into_root": "../root",
+            "outside/into_root": "../root", "root/sub/deep/out2": "../../../outside",
         }
         for rel, target in links.items():
             _mk(os.path.join(B, rel), link=target)
@@ -920,7 +1079,7 @@ def gen_targets(ctx, tree):
     names = ["a.txt", "sub", "b.txt", "deep", "c.txt", "link_in", "link_out", "dir_out", "abs_out", "abs_in", "loop1", "self", "back", "up",
              "dangling", "chain1", "link_dir_in", "out_in", "secret.txt", "fifo", "emptydir", "z.txt", "sp%20ace.txt", "%2541.txt", "%41.txt",
              "back%5Cslash.txt", "back\\slash.txt", "C:", "...", "caf%C3%A9.txt", "..b", "up_out", "evil.txt", "slashes", "dotdot_link", "dir", "x.txt",
-             "%252e%252e", "q%252Fr", "q%2Fr", "nothing", "into_root", "outside", "root", "rootx", "root.txt", "a.txt.gz", "fifo.gz"]
+             "%252e%252e", "q%252Fr", "q%2Fr", "nothing", "into_root", "outside", "root", "rootx", "out2", "root.txt", "a.txt.gz", "fifo.gz"]
     dots = ["..", ".", "", "%2e%2e", "%2E%2E", ".%2e", "%2e.", "%2e", "..%2f", "%2f", "%2F", "%2f..", "..%5c", "%5c", "%5C..%5C", "\\", "..\\", "..\\..",
             "%252e%252e", "%252F", "%00", "..%00", "a.txt%00", "..;", "....", ". .".replace(" ", "%20"), "%c0%ae%c0%ae", "%uff0e%uff0e", "..%c0%af", "%2e%2e%2f%2e%2e"]
     absf = ["{B}/outside/secret.txt", "{B%2F}%2Foutside%2Fsecret.txt", "/etc/passwd", "%2Fetc%2Fpasswd",
@@ -941,6 +1100,11 @@ def gen_targets(ctx, tree):
              "self/../link_out", "loop1/../link_out", "loop1/../dir_out/secret.txt", "self/../dir_out", "self/../dir_out/", "loop1/x/../../abs_out",
              "self/../a.txt", "self/../sub/b.txt", "self/..", "self/../..", "self/../../outside/secret.txt", "loop2/%2e%2e/up_out/evil.txt", "self/../dir_out/secret.txt",
              "self/x", "self/../self", "self/../dangling", "self/../fifo", "sub/up/self/../link_out", "self/../sub/up/link_out", "self/../out_in", "self/../chain1",
+             # directory links crossing the root in intermediate position: files and listings below them, all spellings
+             "dir_out/dir", "dir_out/dir/", "dir_out/dir/x.txt", "dir_out%2Fsecret.txt", "dir_out%2Fdir%2Fx.txt", "dir_out%2fdir", "sub/../dir_out/dir/x.txt",
+             "sub/%2e%2e/dir_out/secret.txt", "dir_out/./dir/../secret.txt", "dir_out/dir/../secret.txt", "dir_out//dir//x.txt", "sub/deep/out2/secret.txt",
+             "sub/deep/out2/dir/x.txt", "sub/deep/out2/dir/", "sub/deep/out2", "sub%2Fdeep%2Fout2%2Fdir%2Fx.txt", "sub/deep/../deep/out2/dir/x.txt",
+             "up_out/", "up_out/evil.txt", "up_out%2Fevil.txt", "abs_in/../dir_out/dir/", "dir_out/into_root/sub/b.txt", "dir_out/into_root/dir_out/secret.txt",
              "sub//b.txt", "sub/./b.txt", "./a.txt", ".//a.txt", "sub/%2e/b.txt", "sub/%2e%2e/a.txt", "a.txt%00", "%00/../a.txt", "x%00/../a.txt", "sub/x%00/../b.txt"]
     for pfx in ("/static", ""):
         for k in known:
@@ -1092,6 +1256,7 @@ def check(ctx):
     check_http_range(ctx)
     check_strings(ctx)
     check_files(ctx)
+    check_race(ctx)
     check_static(ctx)
     ctx.exhaustive = not ctx.quick
     if not ctx.quick:
@@ -1118,6 +1283,23 @@ def replay(ctx, case):
                 raise MachineryError("replay did not finish")
             pub = {k: c[k] for k in ("kind", "size", "half", "cs", "method", "range", "kinds")}
             oracle_file(ctx, {**pub, "headers": [list(h) for h in c["headers"]]}, content, sem, resp)
+        finally:
+            bed.close()
+    elif kind == "race":
+        bed = FileBed([case["size"]])
+        try:
+            async def main():
+                await bed.start()
+                try:
+                    return await run_race(bed, case)
+                finally:
+                    await bed.stop()
+            r, _, _ = vloop.run(main)
+            if r is None:
+                raise MachineryError("replay did not finish")
+            resp, fired, new = r
+            old = bed.files[(case["size"], 0)][1]
+            oracle_race(ctx, case, old, new if fired else old, resp)
         finally:
             bed.close()
     elif kind == "static":
